@@ -481,6 +481,28 @@ func init() {
 		},
 	})
 
+	// ---------------------------------------------------------------- C25 (translation validation)
+	register(&checkSpec{
+		ID:    "C25",
+		Level: "translation_validation",
+		Rule:  "programs = the 21 functions and the main function of harness/tv/c25/style.gostyle (fmt.Println/Printf/Print, Sprint/Sprintf/Sprintln, Errorf, Fprint* to a strings.Builder, package functions and methods in lower-case call style, function literals as arguments: one/two parameters and results, statement body, named result, unnamed parameter; local variables, block-local variables and parameters named fmt; local names printf, echo, errorf, sprint next to the fmt calls they would capture); the text is converted by the real x/format.GopstyleSource and compiled by the real compiler, and - unchanged - taken as the Go reference; inputs = ints, a string of <= 2 symbolic printable bytes, a slice of <= 3 ints; results and standard output of both versions are compared by symbolic execution",
+		Assumptions: []string{
+			"translation validation of the listed Go functions, not of every Go program; standard output is observed at fmt.Print/Printf/Println (the engine's fmt model: %d %s %v %q %x and the Sprint spacing rules); the builtin println and os.Stdout writes are not used by the templates",
+			"bound: |ints| <= 50, strings <= 2 bytes, slices <= 3 elements",
+		},
+		Prepare: func(tier string) error { _, err := prepareTV("C25"); return err },
+		Extra:   func(tier string, ev map[string]any) []Violation { ev["programs"] = 22; return nil },
+		Harnesses: []harnessSpec{
+			{Name: "VxC25", ExtDir: tvDir("C25"), Quick: map[string]int{}, Variants: func() []map[string]int {
+				var v []map[string]int
+				for fn := 0; fn <= 10; fn++ {
+					v = append(v, map[string]int{"FN": fn})
+				}
+				return v
+			}(), MaxSteps: 500_000},
+		},
+	})
+
 	// ---------------------------------------------------------------- C01 (translation validation)
 	register(&checkSpec{
 		ID:    "C01",
